@@ -50,7 +50,7 @@ func runC01(c *eng.Ctx) {
 	flag := p.Field(pkgKem, "resourceInformer", "eventCbEnabled")
 	bufLock := p.Field(pkgKem, "resourceInformer", "eventBufLock")
 	cacheLock := p.Field(pkgKem, "resourceInformer", "cacheLock")
-	cached := p.Field(pkgKem, "resourceInformer", "cachedObjects")
+	_ = cacheLock
 	putEvent := p.Method(pkgKem, "resourceInformer", "putEvent")
 	la := p.Locks()
 
@@ -167,54 +167,8 @@ func runC01(c *eng.Ctx) {
 				r3.Bad(hwe.Key, evNode.Node.Pos(), fmt.Sprintf("a path from the construction of the event reaches the exit at %s without putEvent(%s) and without appending it to eventBuf: the change is dropped", g.Describe(ex), evVar.Name()))
 			}
 		}
-		// R4: cache update before any return / before the event
-		cacheWrite := func(n *eng.GNode) bool {
-			if n.Node == nil {
-				return false
-			}
-			switch t := n.Node.(type) {
-			case *ast.AssignStmt:
-				for _, l := range t.Lhs {
-					if ix, ok := ast.Unparen(l).(*ast.IndexExpr); ok && eng.IsField(info, ix.X, cached) {
-						return true
-					}
-				}
-			case *ast.ExprStmt:
-				if d := builtinCall(info, t.X, "delete"); d != nil && eng.IsField(info, d.Args[0], cached) {
-					return true
-				}
-			}
-			return false
-		}
-		stopped := p.Field(pkgKem, "resourceInformer", "stopped")
-		errT := types.Universe.Lookup("error").Type()
-		allowedEarly := g.FactEdge(func(f eng.Fact) bool {
-			if f.Y != nil {
-				return false
-			}
-			if f.Pos && eng.IsField(info, f.X, stopped) {
-				return true
-			}
-			// err != nil
-			x, y, eq, ok := eng.EqAtom(f)
-			if ok && !eq && eng.IsNil(info, y) {
-				if tv, ok := info.Types[x]; ok && types.Identical(tv.Type, errT) {
-					return true
-				}
-			}
-			return false
-		})
-		avoid := func(e *eng.GEdge) bool { return allowedEarly(e) || unmatchedSwitchEdge(p, hwe, g, e) }
-		ex := g.MustPassToExit(eng.Query{FromEntry: true, AvoidEdge: avoid}, cacheWrite)
-		if ex == nil {
-			r4.Ok(hwe.Key+" cache-before-exit", hwe.Decl.Pos(), "every exit other than `stopped` and the filter error is preceded by a store/delete on cachedObjects")
-		} else {
-			r4.Bad(hwe.Key+" cache-before-exit", hwe.Decl.Pos(), fmt.Sprintf("the exit at %s is reachable without updating cachedObjects: a suppressed or skipped change would not show up in snapshots", g.Describe(ex)))
-		}
-		if evNode != nil {
-			r4.Check(g.OnlyVia(evNode, cacheWrite, avoid), hwe.Key+" cache-before-event", evNode.Node.Pos(),
-				"the KubeEvent is built only after the cache update", "the KubeEvent can be built before cachedObjects is updated: a reader woken by the event would see the old snapshot")
-		}
+		// R4: cache update before any return / before the event (shared with C08.R1)
+		cacheBeforeExit(c, r4, hwe, evNode)
 	}
 
 	// ---- R5 enableKubeEventCb
@@ -1136,4 +1090,89 @@ func runC01R12(c *eng.Ctx, r *eng.RuleCtx) {
 			})
 		}
 	}
+}
+
+// cacheBeforeExit: in handleWatchEvent every exit other than `stopped` / filter error is preceded by a cache update,
+// and the KubeEvent is built only after it.
+func cacheBeforeExit(c *eng.Ctx, r4 *eng.RuleCtx, hwe *eng.Func, evNode *eng.GNode) {
+	p := c.P
+	info := hwe.Pkg.TypesInfo
+	g := p.GraphOf(hwe)
+	cached := p.Field(pkgKem, "resourceInformer", "cachedObjects")
+	cacheWrite := hweCacheWrite(info, cached)
+	avoid := hweAllowedEarly(p, hwe, g)
+	ex := g.MustPassToExit(eng.Query{FromEntry: true, AvoidEdge: avoid}, cacheWrite)
+	if ex == nil {
+		r4.Ok(hwe.Key+" cache-before-exit", hwe.Decl.Pos(), "every exit other than `stopped` and the filter error is preceded by a store/delete on cachedObjects")
+	} else {
+		r4.Bad(hwe.Key+" cache-before-exit", hwe.Decl.Pos(), fmt.Sprintf("the exit at %s is reachable without updating cachedObjects: a suppressed or skipped change would not show up in snapshots", g.Describe(ex)))
+	}
+	if evNode != nil {
+		r4.Check(g.OnlyVia(evNode, cacheWrite, avoid), hwe.Key+" cache-before-event", evNode.Node.Pos(),
+			"the KubeEvent is built only after the cache update", "the KubeEvent can be built before cachedObjects is updated: a reader woken by the event would see the old snapshot")
+	}
+}
+
+func hweCacheWrite(info *types.Info, cached *types.Var) func(n *eng.GNode) bool {
+	return func(n *eng.GNode) bool {
+		if n.Node == nil {
+			return false
+		}
+		switch t := n.Node.(type) {
+		case *ast.AssignStmt:
+			for _, l := range t.Lhs {
+				if ix, ok := ast.Unparen(l).(*ast.IndexExpr); ok && eng.IsField(info, ix.X, cached) {
+					return true
+				}
+			}
+		case *ast.ExprStmt:
+			if d := builtinCall(info, t.X, "delete"); d != nil && eng.IsField(info, d.Args[0], cached) {
+				return true
+			}
+		}
+		return false
+	}
+}
+
+// hweAllowedEarly: edges of the two legitimate early exits (stopped informer, filter error) and the infeasible
+// "no case matched" edge of the event-type switch.
+func hweAllowedEarly(p *eng.Prog, hwe *eng.Func, g *eng.Graph) func(*eng.GEdge) bool {
+	info := hwe.Pkg.TypesInfo
+	stopped := p.Field(pkgKem, "resourceInformer", "stopped")
+	errT := types.Universe.Lookup("error").Type()
+	allowedEarly := g.FactEdge(func(f eng.Fact) bool {
+		if f.Y != nil {
+			return false
+		}
+		if f.Pos && eng.IsField(info, f.X, stopped) {
+			return true
+		}
+		x, y, eq, ok := eng.EqAtom(f)
+		if ok && !eq && eng.IsNil(info, y) {
+			if tv, ok := info.Types[x]; ok && types.Identical(tv.Type, errT) {
+				return true
+			}
+		}
+		return false
+	})
+	return func(e *eng.GEdge) bool { return allowedEarly(e) || unmatchedSwitchEdge(p, hwe, g, e) }
+}
+
+// hweEventNode finds the construction of the KubeEvent in handleWatchEvent.
+func hweEventNode(p *eng.Prog, hwe *eng.Func) (*eng.GNode, types.Object) {
+	info := hwe.Pkg.TypesInfo
+	g := p.GraphOf(hwe)
+	kubeEventT := p.Named(pkgKemT, "KubeEvent")
+	for _, n := range g.Nodes {
+		as, ok := n.Node.(*ast.AssignStmt)
+		if !ok || len(as.Lhs) != 1 || len(as.Rhs) != 1 {
+			continue
+		}
+		if cl, ok := ast.Unparen(as.Rhs[0]).(*ast.CompositeLit); ok {
+			if tv, ok := info.Types[cl]; ok && kubeEventT != nil && types.Identical(tv.Type, kubeEventT) {
+				return n, eng.SelObj(info, as.Lhs[0])
+			}
+		}
+	}
+	return nil, nil
 }
